@@ -48,9 +48,9 @@ type commit struct {
 }
 
 type truth struct {
-	store  corekv.Store
-	seen   map[string]bool    // raw keys already classified
-	blocks map[string]*commit // by cid, every decoded block
+	store    corekv.Store
+	seen     map[string]bool    // raw keys already classified
+	blocks   map[string]*commit // by cid, every decoded block
 	bySchema map[string]int
 }
 
